@@ -54,6 +54,15 @@ func returnsOf(fn *ssa.Function) []*ssa.Return {
 }
 
 // callsOn returns the calls of target (a module function) in fn.
+// callsInAll: every call of target in the module.
+func (pl *pool) callsInAll(target *ssa.Function) []*ssa.Call {
+	var out []*ssa.Call
+	for _, fn := range pl.p.Funcs {
+		out = append(out, pl.callsIn(fn, target)...)
+	}
+	return out
+}
+
 func (pl *pool) callsIn(fn, target *ssa.Function) []*ssa.Call {
 	var out []*ssa.Call
 	eachInstr(fn, func(in ssa.Instruction) {
